@@ -541,7 +541,9 @@ pub fn run_inflate_with<B: InfBack>(data: &[u8], sched: &InfSchedule, o: &InfOpt
         }
         let din = din_av;
         let dout = dout_av;
-        if !(rc == Z_NEED_DICT) {
+        // (the call that answers Z_NEED_DICT included: stock zlib forgets to count the header bytes of that call, which
+        // is why C16 does not compare totals there - C15 says what they must be: the sum over all calls)
+        {
             if strm.total_in as u64 != prev_total_in + din as u64 || strm.total_out as u64 != prev_total_out + dout as u64 {
                 viol(&mut run, "C15", "inflate/totals", format!("call {{}}: total_in {}->{} but consumed {}; total_out {}->{} but produced {}", prev_total_in, strm.total_in, din, prev_total_out, strm.total_out, dout));
             }
@@ -622,8 +624,11 @@ pub fn run_inflate_with<B: InfBack>(data: &[u8], sched: &InfSchedule, o: &InfOpt
                         run.last_rc = r;
                         break;
                     }
-                    // totals are unspecified right after NEED_DICT (C16 note); resync
+                    // inflateSetDictionary moves no stream data: the totals must be what they were
                     let (ti, to, _) = be.totals();
+                    if ti != prev_total_in || to != prev_total_out {
+                        viol(&mut run, "C15", "inflate/totals-after-set-dictionary", format!("inflateSetDictionary changed the totals: total_in {}->{} total_out {}->{}", prev_total_in, ti, prev_total_out, to));
+                    }
                     prev_total_in = ti;
                     prev_total_out = to;
                     continue;
